@@ -72,6 +72,24 @@ def ops_for(model):
             'compile': ('compile', [U1], {M.K('U', 'A1', C): ('n', 3.0)}, [B1, B2], [3]),
             'to_dict': ('to_dict',), 'write': ('write',), 'deepcopy': ('deepcopy',),
         }
+    if model == 'd':
+        k = lambda c: M.K('S', c)
+        blk = {k('A1'): ('n', 10.0), k('B1'): ('n', 20.0), k('C1'): ('n', 30.0), k('A2'): ('n', 40.0), k('B2'): ('n', 50.0), k('C2'): ('n', 60.0)}
+        sparse = {k('G1'): ('n', 1.0), k('G2'): ('n', 2.0), k('G3'): ('n', 3.0), k('G4'): ('n', 4.0), k('G5'): ('n', 5.0)}
+        return {
+            'calc': ('calc', {}, {}, None),
+            'A1:C2=block': ('calc', {i(B, 'S', 'A1:C2'): [[10, 20, 30], [40, 50, 60]]}, blk, None),
+            'B1=8': ('calc', {i(B, 'S', 'B1'): 8}, {k('B1'): ('n', 8.0)}, None),
+            'G1:G5=1..5': ('calc', {i(B, 'S', 'G1:G5'): [[1], [2], [3], [4], [5]]}, sparse, None),
+            'G3=11': ('calc', {i(B, 'S', 'G3'): 11}, {k('G3'): ('n', 11.0)}, None),
+            'G2=txt,G5=2': ('calc', {i(B, 'S', 'G2'): 'q', i(B, 'S', 'G5'): 2}, {k('G2'): ('t', 'q'), k('G5'): ('n', 2.0)}, None),
+            'E1=0': ('calc', {i(B, 'S', 'E1'): 0}, {k('E1'): ('n', 0.0)}, None),
+            'TOTAL=1': ('calc', {name_id(B, 'BLOCK_TOTAL'): 1}, {k('E1'): ('n', 1.0)}, None),
+            'C2=1>E4': ('calc', {i(B, 'S', 'C2'): 1}, {k('C2'): ('n', 1.0)}, [i(B, 'S', 'E4')]),
+            'compile': ('compile', [i(B, 'S', 'A1:C2')], blk, [i(B, 'S', 'E2'), i(B, 'S', 'E3')], [[[10, 20, 30], [40, 50, 60]]]),
+            'compile-G': ('compile', [i(B, 'S', 'G3')], {k('G3'): ('n', 11.0)}, [i(B, 'S', 'H1'), i(B, 'S', 'H2')], [11]),
+            'to_dict': ('to_dict',), 'write': ('write',), 'deepcopy': ('deepcopy',),
+        }
     raise ValueError(model)
 
 
@@ -118,7 +136,8 @@ def observe(model, name, res):
     spec = M.MODELS[model]()
     kind, val = res
     if kind == 'sol':
-        keys = list(spec['cells']) + [k for ak in spec['arrays'] for k in spill_keys(ak)]
+        o = ops_for(model)[name]
+        keys = list(spec['cells']) + [k for ak in spec['arrays'] for k in spill_keys(ak)] + [k for k in (o[2] if len(o) > 2 else {}) if k not in spec['cells']]
         return {k: v for k, v in X.canon_solution(val, spec, keys).items() if v is not None}
     if kind == 'vals':
         import numpy as np
